@@ -87,7 +87,7 @@ def stores_with_range(b, names):
                 r = ranges.get(iv, {})
                 lo = re.sub(r"#\d+", "", r.get("lo", "?"))
                 hi = re.sub(r"#\d+", "", r.get("hi", ("?", 0))[0])
-                out.append(("%s = %s" % (b.pname(s["lhs"], 2), b.rvname(s["rv"], 10)), (lo, hi)))
+                out.append((wide("%s = %s" % (b.pname(s["lhs"], 2), b.rvname(s["rv"], 10))), (lo, hi)))
     finally:
         b.names = old
     return out
@@ -97,10 +97,16 @@ PNG_DECODE = {
     ("*cur[i] = wrapping_add(*cur[i],*cur[Sub(i,bpp)])", ("bpp", "len")): "Sub: Recon(x) = Filt(x) + Recon(a), a = x - bpp",
     ("*cur[i] = wrapping_add(*cur[i],*prev[i])", ("0", "len")): "Up: Recon(x) = Filt(x) + Recon(b)",
     ("*cur[i] = wrapping_add(*cur[i],Div(*prev[i],2))", ("0", "bpp")): "Average, first pixel: a = 0",
-    ("*cur[i] = wrapping_add(*cur[i],Div(Add(from(*cur[Sub(i,bpp)]),from(*prev[i])),2) as u8)", ("bpp", "len")): "Average: floor((Recon(a) + Recon(b)) / 2) without overflow",
+    ("*cur[i] = wrapping_add(*cur[i],Div(Add(*cur[Sub(i,bpp)] as W,*prev[i] as W),2) as u8)", ("bpp", "len")): "Average: floor((Recon(a) + Recon(b)) / 2) without overflow",
     ("*cur[i] = wrapping_add(*cur[i],paeth_predict(0,*prev[i],0))", ("0", "bpp")): "Paeth, first pixel: a = c = 0",
     ("*cur[i] = wrapping_add(*cur[i],paeth_predict(*cur[Sub(i,bpp)],*prev[i],*prev[Sub(i,bpp)]))", ("bpp", "len")): "Paeth(a = Recon(x-bpp), b = Prior(x), c = Prior(x-bpp))",
 }
+
+
+def wide(t):
+    """a widening of a byte to any signed/unsigned type of at least 16 bits is written `as W` (the width does not matter as
+    long as 2 * 255 fits)."""
+    return re.sub(r" as (i16|u16|i32|u32|i64|u64|isize|usize)\b", " as W", t)
 
 
 def png_rules(ctx, F):
@@ -185,9 +191,10 @@ def png_rules(ctx, F):
                 rets[bi] = pp.rvname(s["rv"], 3)
     finally:
         pp.names = old
-    pa = "abs(Sub(Sub(Add(from(a),from(b)),from(c)),from(a)))"
-    pb = "abs(Sub(Sub(Add(from(a),from(b)),from(c)),from(b)))"
-    pc = "abs(Sub(Sub(Add(from(a),from(b)),from(c)),from(c)))"
+    pa = "abs(Sub(Sub(Add(a as W,b as W),c as W),a as W))"
+    pb = "abs(Sub(Sub(Add(a as W,b as W),c as W),b as W))"
+    pc = "abs(Sub(Sub(Add(a as W,b as W),c as W),c as W))"
+    conds = [wide(c) for c in conds]
     want = ["Le(%s,%s)" % (pa, pb), "Le(%s,%s)" % (pa, pc), "Le(%s,%s)" % (pb, pc)]
     ctx.ob(R, "paeth-predictor", conds == want and sorted(rets.values()) == ["a", "b", "c"],
            "p = a + b - c; a if pa <= pb && pa <= pc; else b if pb <= pc; else c", pp.where(),
